@@ -77,6 +77,9 @@ def _probe(st):
         for k in (0, 1):
             y = st.model(models.probe_input(st.cfg["model"], st.cfg["dt"], k))
             outs.append(lifecycle.out_bytes(y))
+        if st.cfg["a"]:
+            # an already quantized input carrying its own scale (different from the calibrated input scale)
+            outs.append(lifecycle.out_bytes(st.model(models.quantized_probe(st.cfg["model"], st.cfg["dt"], st.cfg["a"]))))
     return outs
 
 
